@@ -197,6 +197,7 @@ func runC12(pl *plan.Plan, out *plan.Outcome) {
 		sh.T, sh.S = nReal+op.T, "reuse-second"
 		all = append(all, sh)
 	}
+	tmplSent := make([]int, len(all))  // template messages fully written per client
 	sent := make([]int, len(all))      // records fully written per client
 	finished := make([]bool, len(all)) // client closed orderly after sending everything
 	stay := make(chan struct{})
@@ -236,7 +237,7 @@ func runC12(pl *plan.Plan, out *plan.Outcome) {
 				return
 			}
 			if op.S == "reuse" && tr == 0 {
-				c12Reuse(env, op, nReal, addr, sent, finished)
+				c12Reuse(env, op, nReal, addr, sent, tmplSent, finished)
 				return
 			}
 			tm := c12Template(op.T)
@@ -266,8 +267,18 @@ func runC12(pl *plan.Plan, out *plan.Outcome) {
 			if write(tm.templateMsg(ipfixref.Header{})) != nil {
 				return
 			}
+			tmplSent[op.T] = 1
 			n := 0
 			for m := 0; m < int(op.B); m++ {
+				if m > 0 && m == int(op.B)/2 && (op.T+int(op.B))%2 == 0 {
+					// the same template again in mid-stream (an exporter may repeat its templates at any
+					// time): a message of the connection like any other
+					if write(tm.templateMsg(ipfixref.Header{Sequence: uint32(n)})) != nil {
+						return
+					}
+					tmplSent[op.T]++
+					env.Count("probe.identical_template_repeated", 1)
+				}
 				var body []byte
 				for k := 0; k < int(op.C); k++ {
 					var rb [12]byte
@@ -414,6 +425,9 @@ func runC12(pl *plan.Plan, out *plan.Outcome) {
 		}
 	}
 	for c, op := range all {
+		if tr != 1 && finished[c] && cfgOr(pl, "stop_ms", 0) == 0 && tmplSent[c] > 0 && templatesDelivered[c] != tmplSent[c] {
+			env.Violate("lost-message", "template", "client %d closed its connection after sending %d template messages and %d records (%s), %d template messages were delivered", c, tmplSent[c], sent[c], op.S, templatesDelivered[c])
+		}
 		if tr != 1 && finished[c] && cfgOr(pl, "stop_ms", 0) == 0 && len(per[c]) != sent[c] {
 			env.Violate("lost-message", transportNames[tr], "client %d closed its connection after sending %d records (%s), %d were delivered", c, sent[c], op.S, len(per[c]))
 		}
@@ -433,7 +447,7 @@ func runC12(pl *plan.Plan, out *plan.Outcome) {
 // c12Reuse: the first connection pipelines its share of the messages and is reset; the second one is
 // dialled from the same local address at once, announces its own template (another observation
 // domain, so deliveries are attributable) and sends the rest, then closes in an orderly way.
-func c12Reuse(env *Env, op plan.Op, nReal int, addr string, sent []int, finished []bool) {
+func c12Reuse(env *Env, op plan.Op, nReal int, addr string, sent, tmplSent []int, finished []bool) {
 	var c1 *simnet.Conn
 	var err error
 	Block("dial", func() { c1, err = env.Net.Dial("tcp", addr) })
@@ -448,6 +462,7 @@ func c12Reuse(env *Env, op plan.Op, nReal int, addr string, sent []int, finished
 		if werr != nil {
 			return false
 		}
+		tmplSent[idx] = 1
 		n := 0
 		for m := 0; m < msgs; m++ {
 			var body []byte
